@@ -696,7 +696,10 @@ func (s *scanner) stateAnyAnnotationStart(c byte) (st state, err error) {
 }
 
 func (s *scanner) stateInlineAnnotation(c byte) (state, error) {
-	if bytes.IsBlank(c) {
+	// Only blanks of the same line are skipped: a line break right after the
+	// slashes ends the (empty) annotation instead of being swallowed with the
+	// whole next line.
+	if bytes.IsSpace(c) {
 		return scanSkip, nil
 	}
 
